@@ -22,6 +22,16 @@ def run(chk):
     from . import C15
 
     C15.merge_glue(chk, ["CountMinLinear", "CountMinLog16", "CountMinLog8"])  # merge() reaches the kernel on every accepting path
+    # the parameters the merge kernels decode with are the ones the caller asked for: the factory builds
+    # what the class constructor builds, the constructor hands _find_base its own arguments un-truncated
+    from .. import glue as _g, pyexec as _X
+    from . import C18
+
+    try:
+        C15.factory_rows(chk, _g.make_exec(chk))
+    except _X.Unsupported as e:
+        chk.undecided.append(("CountMin factory", "unsupported construct in glue: %s" % e))
+    C18.constructor_rows(chk)
     _cm.crosscheck_linear(chk)
     quick = chk.tier == "quick"
     cases, fails, first = _log.merge_standin(chk, quick)
